@@ -1,6 +1,6 @@
 (** C06 — Expression trees respect C operator precedence and associativity. *)
 From Coq Require Import List ZArith Bool Lia.
-From PV Require Import CxxIR C06Model C06Spec.
+From PV Require Import CxxIR C06Model C06Spec C06Shape.
 From PV.gen Require Import Gen_SyntaxKind Gen_C06.
 Import ListNotations.
 Local Open Scope Z_scope.
@@ -67,8 +67,13 @@ Qed.
 
 (* ---------------------------------------------------------------- the climbing loop instantiated *)
 Definition zk (k : N) := Z.of_N k.
+(** outside the SyntaxKind values the tables are taken to be empty (a token always is a SyntaxKind value) *)
+Definition in_kinds (k : Z) : bool := existsb (Z.eqb k) all_kinds.
+Definition w_prec (k : Z) : Z := if in_kinds k then i_prec k else 0.
+Definition w_rassoc (k : Z) : bool := if in_kinds k then i_rassoc k else false.
+Definition w_isnary (k : Z) : bool := if in_kinds k then i_isnary k else false.
 Definition climb_parse : list tok -> res :=
-  parse_expr i_prec i_rassoc i_isnary (zk K_IntegerConstantToken) (zk K_OpenParenToken) (zk K_CloseParenToken)
+  parse_expr w_prec w_rassoc w_isnary (zk K_IntegerConstantToken) (zk K_OpenParenToken) (zk K_CloseParenToken)
              (zk K_QuestionToken) (zk K_ColonToken) PREC_Sequencing PREC_Assignment.
 Definition grammar_parse : list tok -> res :=
   ref_expr (zk K_IntegerConstantToken) (zk K_OpenParenToken) (zk K_CloseParenToken) (zk K_QuestionToken) (zk K_ColonToken)
@@ -116,6 +121,51 @@ Definition agree_on (s : list Z) : bool :=
   | Fuel, _ | _, Fuel => false
   | _, _ => true
   end.
+(* ---------------------------------------------------------------- the shape of what the loop builds (unbounded) *)
+Definition BIG : Z := 1000.
+Lemma shape_tables_ok :
+  forallb (fun k => implb (0 <? i_prec k) (i_isnary k) && (i_prec k <? BIG) &&
+                    forallb (fun k2 => implb ((i_prec k =? i_prec k2) && (0 <? i_prec k)) (Bool.eqb (i_rassoc k) (i_rassoc k2))) all_kinds) all_kinds = true.
+Proof. vm_compute. reflexivity. Qed.
+Lemma in_kinds_In k : in_kinds k = true -> In k all_kinds.
+Proof. unfold in_kinds. intros H. apply existsb_exists in H as [x [Hx E]]. apply Z.eqb_eq in E. subst. exact Hx. Qed.
+Lemma w_nary : forall k, 0 < w_prec k -> w_isnary k = true.
+Proof.
+  intros k H. unfold w_prec, w_isnary in *. destruct (in_kinds k) eqn:E; [|lia].
+  pose proof shape_tables_ok as T. rewrite forallb_forall in T. specialize (T k (in_kinds_In k E)).
+  apply andb_true_iff in T as [T _]. apply andb_true_iff in T as [T _]. apply Z.ltb_lt in H. rewrite H in T. exact T.
+Qed.
+Lemma w_big : forall k, w_prec k < BIG.
+Proof.
+  intros k. unfold w_prec. destruct (in_kinds k) eqn:E; [|reflexivity].
+  pose proof shape_tables_ok as T. rewrite forallb_forall in T. specialize (T k (in_kinds_In k E)).
+  apply andb_true_iff in T as [T _]. apply andb_true_iff in T as [_ T]. apply Z.ltb_lt in T. exact T.
+Qed.
+Lemma w_same : forall k1 k2, w_prec k1 = w_prec k2 -> 0 < w_prec k1 -> w_rassoc k1 = w_rassoc k2.
+Proof.
+  intros k1 k2 He Hp. unfold w_prec, w_rassoc in *. destruct (in_kinds k1) eqn:E1; [|lia]. destruct (in_kinds k2) eqn:E2; [|lia].
+  pose proof shape_tables_ok as T. rewrite forallb_forall in T. specialize (T k1 (in_kinds_In k1 E1)).
+  apply andb_true_iff in T as [_ T]. rewrite forallb_forall in T. specialize (T k2 (in_kinds_In k2 E2)).
+  apply Z.eqb_eq in He. apply Z.ltb_lt in Hp. rewrite He, Hp in T. cbn in T. apply eqb_prop in T. exact T.
+Qed.
+
+Notation shape_wf := (C06Shape.wf w_prec w_rassoc (zk K_QuestionToken) BIG).
+
+(** For EVERY token string: whatever tree the climbing loop returns, every operator node in it has a
+    left operand that binds at least as tightly as the node (strictly tighter for the right-associative
+    '?' and assignment operators) and a right operand that binds strictly tighter (at least as tightly for
+    those) — the grouping C11 6.5.5-6.5.17 prescribes — at every depth, inside parentheses and
+    conditional operands included.  With [C03_expr_lossless] (same tokens, same order) this pins
+    the tree down; the equality with the recursive-descent reference itself is still only
+    kernel-evaluated on bounded families below. *)
+Theorem C06_climb_shape : forall ts t rest, climb_parse ts = OK t rest -> shape_wf t.
+Proof.
+  intros ts t rest H. unfold climb_parse, parse_expr in H.
+  destruct (C06Shape.shape w_prec w_rassoc w_isnary (zk K_IntegerConstantToken) (zk K_OpenParenToken) (zk K_CloseParenToken)
+              (zk K_QuestionToken) (zk K_ColonToken) PREC_Sequencing PREC_Assignment BIG w_nary w_same w_big (3 * length ts + 3)%nat) as [_ [_ F]].
+  exact (F _ _ _ H).
+Qed.
+
 Definition ops31 : list Z := map o_tok optable.
 Definition triples : list (list Z) :=
   flat_map (fun a => flat_map (fun b => map (fun c =>
@@ -138,4 +188,5 @@ Example C06_nonvacuous :
 Proof. vm_compute. repeat split; reflexivity. Qed.
 
 Print Assumptions C06_tables.
+Print Assumptions C06_climb_shape.
 Print Assumptions C06_bounded_agreement_triples.
